@@ -1,11 +1,15 @@
 import Enc.Lemmas.Ascii
+import Enc.Lemmas.AsciiAsmFold
 /-!
 # C20 — ascii predicates equal their byte-wise definitions at every length
 
 Property theorems only. `Model.Ascii.*` mirrors the portable (purego) algorithms of
 github.com/segmentio/asm/ascii that /repo/ascii wraps; `Spec.Ascii.*` are the byte-wise definitions.
-No bound on the length of the inputs. (The assembly build is tied by the exhaustive sweep of the
-correspondence harness, not by theorem — see DESIGN.md §5 C20.)
+No bound on the length of the inputs. The amd64 ASSEMBLY kernels of the default build (`valid_amd64.s`,
+`valid_print_amd64.s`, `equal_fold_amd64.s`; scalar and AVX2 paths) are modelled label by label in
+`Enc/Model/AsciiAsm.lean` (constants and instruction sequences pinned to the regenerated `Enc/Gen/AsmConsts.lean`);
+the `asm*` theorems at the end state that they compute the same byte-wise definitions, hence the same answers as the
+purego code, for every input and on CPUs with and without AVX2.
 -/
 namespace Enc.Props.C20
 open Enc Enc.Model.Ascii
@@ -58,5 +62,59 @@ example : validPrintString (List.replicate 11 0x20 ++ [0x7f]) = false := by deci
 example : equalFoldString [0x48, 0x65, 0x6c, 0x6c, 0x6f, 0x2c, 0x20, 0x57, 0x6f, 0x72, 0x6c, 0x64]
     [0x68, 0x45, 0x4c, 0x4c, 0x4f, 0x2c, 0x20, 0x77, 0x4f, 0x52, 0x4c, 0x44] = true := by decide +kernel
 example : equalFoldString [0x40] [0x60] = false := by decide +kernel
+
+/-! ## the assembly kernels (default, non-purego build) -/
+section Asm
+open Enc.Model.AsciiAsm
+
+/-- valid_amd64.s: `ValidString` of the assembly build = "all bytes below 0x80", every length, with and without AVX2. -/
+theorem asmValidString_spec (hasAVX2 : Bool) (s : Bytes) : asmValidString hasAVX2 s = Spec.Ascii.valid s :=
+  Lemmas.AsciiAsm.asmValidString_eq hasAVX2 s
+
+/-- valid_print_amd64.s: `ValidPrintString` of the assembly build = "all bytes in 0x20–0x7E". -/
+theorem asmValidPrintString_spec (hasAVX2 : Bool) (s : Bytes) :
+    asmValidPrintString hasAVX2 s = Spec.Ascii.validPrint s :=
+  Lemmas.AsciiAsm.asmValidPrintString_eq hasAVX2 s
+
+/-- equal_fold_amd64.s: `EqualFoldString` of the assembly build = equal lengths and bytes equal after mapping only A–Z
+(for all bytes, not only ASCII). -/
+theorem asmEqualFoldString_spec (hasAVX2 : Bool) (a b : Bytes) :
+    asmEqualFoldString hasAVX2 a b = Spec.Ascii.equalFold a b :=
+  Lemmas.AsciiAsm.asmEqualFoldString_eq hasAVX2 a b
+
+/-- the same for ANY value of the feature word `cpu.X86` (only bit 8 is consulted, and both paths agree) -/
+theorem asmValidString_anyCPU (cpuX86 : Nat) (s : Bytes) : Valid.entry cpuX86 s = Spec.Ascii.valid s := by
+  rw [Lemmas.AsciiAsm.valid_entry, Lemmas.Ascii.valid_all]
+theorem asmValidPrintString_anyCPU (cpuX86 : Nat) (s : Bytes) : ValidPrint.entry cpuX86 s = Spec.Ascii.validPrint s := by
+  rw [Lemmas.AsciiAsm.print_entry, Lemmas.Ascii.print_all]
+theorem asmEqualFoldString_anyCPU (cpuX86 : Nat) (a b : Bytes) : EqualFold.entry cpuX86 a b = Spec.Ascii.equalFold a b :=
+  Lemmas.AsciiAsm.fold_entry cpuX86 a b
+
+/-- "The answers are identical in the assembly and the purego builds." -/
+theorem asm_eq_purego_validString (hasAVX2 : Bool) (s : Bytes) : asmValidString hasAVX2 s = validString s := by
+  rw [asmValidString_spec, validString_spec]
+theorem asm_eq_purego_validPrintString (hasAVX2 : Bool) (s : Bytes) :
+    asmValidPrintString hasAVX2 s = validPrintString s := by
+  rw [asmValidPrintString_spec, validPrintString_spec]
+theorem asm_eq_purego_equalFoldString (hasAVX2 : Bool) (a b : Bytes) :
+    asmEqualFoldString hasAVX2 a b = equalFoldString a b := by
+  rw [asmEqualFoldString_spec, equalFoldString_spec]
+
+/-! non-vacuity: the model really runs both paths (the AVX2 path with the overlapping tail load, 16 < length), and
+rejects an offending byte that only the tail load / only the 3-byte scalar tail sees -/
+example : asmValidString true (List.replicate 40 0x41 ++ [0x80]) = false := by decide +kernel
+example : asmValidString false (List.replicate 18 0x41 ++ [0x80]) = false := by decide +kernel
+example : asmValidString true (List.replicate 300 0x7f) = true := by decide +kernel
+example : asmValidPrintString true (List.replicate 33 0x20 ++ [0x7f]) = false := by decide +kernel
+example : asmValidPrintString false (List.replicate 10 0x7e ++ [0x1f]) = false := by decide +kernel
+example : asmValidPrintString true (List.replicate 150 0x7e) = true := by decide +kernel
+example : asmEqualFoldString true (List.replicate 20 0x41 ++ [0x5a]) (List.replicate 20 0x61 ++ [0x7a]) = true := by
+  decide +kernel
+example : asmEqualFoldString true (List.replicate 20 0x41 ++ [0x40]) (List.replicate 20 0x61 ++ [0x60]) = false := by
+  decide +kernel
+example : asmEqualFoldString false (List.replicate 20 0x41 ++ [0x5b]) (List.replicate 20 0x61 ++ [0x7b]) = false := by
+  decide +kernel
+
+end Asm
 
 end Enc.Props.C20
